@@ -539,7 +539,28 @@ class Scenario:
                 K.close_persistent_loop()
 
 
+def isolate_tqdm_lock():
+    """tqdm's default write lock is a MULTIPROCESSING lock: created once, it is shared by every process forked afterwards (the pool
+    workers and the children they fork).  The crash tests kill children at arbitrary instants (`os._exit`); a child killed while it
+    holds that lock leaves it held for ever and every worker then blocks in its next `tqdm(...)` — the check hangs until the outer
+    timeout.  A per-process thread lock has the semantics replicat needs (its progress bars are used from threads of one process) and
+    dies with the process; without the monitor thread nothing else can hold it at the moment a child is forked."""
+    import threading
+    import tqdm
+    tqdm.tqdm.monitor_interval = 0
+    tqdm.tqdm.set_lock(threading.RLock())
+
+
 def run_scenario(arg):
+    isolate_tqdm_lock()
+    try:
+        return _run_scenario(arg)
+    except Exception:  # noqa: BLE001
+        import traceback
+        return worker_failed('scenario', arg, traceback.format_exc())
+
+
+def _run_scenario(arg):
     seed, idx, tier = arg
     from .. import common
     common.use_rebuilt_chunker()
@@ -559,7 +580,45 @@ def run_scenario(arg):
 
 
 # ---------------------------------------------------------------------------- (d) the local upload itself
+def die_after_temp_creation():
+    """(child only) the process dies right after the real upload has created its temporary file — hooked where the file is created
+    (`tempfile.NamedTemporaryFile` / `mkstemp`, also under the names replicat.backends.local imported them by), not at a private
+    helper of `Local`, so renaming / inlining / splitting that helper does not matter"""
+    import tempfile
+    import replicat.backends.local as LM
+
+    def dying(f):
+        def g(*a, **kw):
+            f(*a, **kw)
+            os._exit(17)
+        return g
+    for nm in ('NamedTemporaryFile', 'mkstemp'):
+        orig = getattr(tempfile, nm)
+        for holder in (tempfile, LM):
+            for attr, val in list(vars(holder).items()):
+                if val is orig:
+                    setattr(holder, attr, dying(orig))
+
+
 def run_localfs(arg):
+    isolate_tqdm_lock()
+    try:
+        return _run_localfs(arg)
+    except Exception:  # noqa: BLE001
+        import traceback
+        return worker_failed('localfs', arg, traceback.format_exc())
+
+
+def worker_failed(kind, arg, tb):
+    """an exception inside one generated case must not take the whole check down (exit 2): it is reported as a tie that could not be
+    established for that case (exit 1, `no-failing-input-found` unless another case yields a concrete input)"""
+    seed, idx, tier = arg
+    return {'idx': idx, 'model': [], 'violations': [], 'cases': [], 'dist': ['worker-exception:' + kind],
+            'notes': [(f'{kind} case {idx}: the harness could not run this case on the tree under test: ' + tb.strip().splitlines()[-1][:200],
+                       {'kind': kind, 'idx': idx, 'tier': tier, 'traceback': tb[-1500:]})]}
+
+
+def _run_localfs(arg):
     seed, idx, tier = arg
     from .. import common
     common.use_rebuilt_chunker()
@@ -599,18 +658,17 @@ def run_localfs(arg):
                     C._Armed.on, C._Armed.phase = True, mode
                     L = Local(str(root))
                     if mode == 'temp-created':
-                        orig = L._destination_temp
-
-                        def dt(nm):
-                            res = orig(nm)
-                            os._exit(17)
-                            return res
-                        L._destination_temp = dt
+                        die_after_temp_creation()
                     do_upload(L)
                 else:
                     do_upload(Local(str(root)))
             status = C.run_child(fn)
             want = 0 if mode == 'complete' else 17
+            if mode in C.PHASES and status == 0:
+                # the upload completed without passing the instrumented call of this phase (the tree under test creates / fills /
+                # renames its temporary through other library calls than the hooked ones): the phase cannot be hit, nothing to compare
+                out['dist'].append('d:phase-not-reached')
+                return out
             if status != want:
                 out['notes'].append((f'localfs child ended with status {status}, expected {want}', rp))
                 return out
@@ -705,12 +763,16 @@ def compare_model(kind, req, impl, m):
         if m is None or 'files' not in m:
             return ['driver error: %r' % (m,)]
         for k in ('files', 'listing', 'exists', 'download'):
-            if m[k] != impl[k]:
-                bad.append(f'localfs {k}: model {str(m[k])[:120]} implementation {str(impl[k])[:120]}')
+            if m.get(k, '<absent>') != impl[k]:
+                bad.append(f'localfs {k}: model {str(m.get(k, "<absent>"))[:120]} implementation {str(impl[k])[:120]}')
         return bad
     if isinstance(m.get('error'), str) and not any(k in m for k in ('store', 'rows', 'files', 'accepts')) and m['error'] not in (
             'corrupted', 'not_available', 'different_key', 'missing'):
         return ['driver error: ' + m['error']]
+    need = {'trace': ('store_after_prefix',), 'step': ('store',), 'list': (), 'restore': ()}.get(kind, ())
+    missing = [k for k in need if k not in m]
+    if missing:
+        return [f'model reply to {req.get("op")} has no {missing} (error {m.get("error")!r})']
     if kind == 'trace':
         if not m.get('accepts'):
             bad.append(f'the observed mutation {"trace" if impl["full"] else "prefix"} is not accepted by the model plan: {[(t[0], t[1]) for t in req["trace"]][:6]}')
@@ -727,15 +789,15 @@ def compare_model(kind, req, impl, m):
         if (m.get('error') or None) != impl['error']:
             bad.append(f'list: error model {m.get("error")} implementation {impl["error"]}')
         elif impl['rows'] is not None:
-            md = [[x[0], x[2]] for x in m['rows'] if x[1] is not None]
-            mn = sorted(x[0] for x in m['rows'] if x[1] is None)
+            md = [[x[0], x[2]] for x in m.get('rows') or [] if x[1] is not None]
+            mn = sorted(x[0] for x in m.get('rows') or [] if x[1] is None)
             if [md, mn] != impl['rows']:
                 bad.append(f'list: rows differ: model {[md, mn]} implementation {impl["rows"]}')
     elif kind == 'restore':
         if (m.get('error') or None) != impl['error']:
             bad.append(f'restore: error model {m.get("error")} implementation {impl["error"]}')
         elif impl['files'] is not None:
-            mf = sorted([f[0], f[1]] for f in m['files'])
+            mf = sorted([f[0], f[1]] for f in m.get('files') or [])
             if mf != impl['files']:
                 bad.append(f'restore: restored file versions differ: model {mf[:5]} implementation {impl["files"][:5]}')
     return bad
@@ -754,6 +816,7 @@ def run(out, drv, info):
                        'process death is modelled at backend-call granularity and, for the local backend, at the file-system steps mkdir -p / mktemp / write / rename',
                        'POSIX rename atomicity; ideal cryptography (payload validity is decided by the real verification code)',
                        'mutating backend calls of the killed child are serialised by the instrumentation, so that "the first k mutations completed" is well defined']
+    isolate_tqdm_lock()
     with mp.get_context('fork').Pool(min(16, os.cpu_count() or 4)) as pool:
         r1 = pool.map_async(run_scenario, [(out.seed, i, out.tier) for i in range(n_scen)], chunksize=1)
         r2 = pool.map_async(run_localfs, [(out.seed, i, out.tier) for i in range(n_fs)], chunksize=4)
